@@ -22,11 +22,11 @@ where
     let mut visitor =
         CompositeShapeAgainstShapeClosestPointsVisitor::new(dispatcher, pos12, g1, g2, margin);
 
+    // No result means that every part is farther than `margin` (or that the composite shape is empty).
     g1.typed_qbvh()
         .traverse_best_first(&mut visitor)
-        .expect("The composite shape must not be empty.")
-        .1
-         .1
+        .map(|res| res.1 .1)
+        .unwrap_or(ClosestPoints::Disjoint)
 }
 
 /// Closest points between a shape and a composite shape.
